@@ -74,3 +74,51 @@ Print Assumptions C18_shift_space.
 
 Example C18_nonvacuous : printable 65%N = true /\ full_width_symbol_input 65%N = Some 65313%N /\ length char_codes = 48.
 Proof. repeat split. Qed.
+
+(* ---- through the C API: the key event chewing_handle_Default builds ----
+   For every keyboard that does not remap keys (seven of the eight of Model/Keyboard.v, over the regenerated key
+   matrices: all but Dvorak-on-Qwerty, whose purpose is to turn the typed character into another) and every printable
+   ASCII character ch = 32..126, `keyboard.map_ascii(ch)` is an event that meets the hypotheses of C18_english_key and
+   carries exactly ch - so in English mode chewing_handle_Default(ch) commits or inserts ch itself (half-width) or its
+   one full-width image.  Complete sweep: 7 x 95 events; Dvorak-on-Qwerty changes 66 of the 95 (the sweep says so). *)
+From Coq Require Import ZArith Lia.
+From LC Require Model.Keyboard.
+From LC Require Import Gen.Keyboard_gen Model.EdInst Model.CapiKeys.
+
+Definition handle_default_event_ok (kb ch : N) : bool :=
+  match Keyboard.map_ascii kb ch with
+  | Ok ev =>
+    let e := of_key_event ev in
+    existsb (N.eqb (kcode e)) char_codes && N.eqb (kunicode e) ch &&
+    negb (mctrl e) && negb (mcaps e) && negb (mnum e) && negb (N.eqb (kcode e) kc_Space && mshift e)
+  | _ => false
+  end.
+
+Theorem C18_handle_Default_builds_the_character_event : forall kb ch,
+  (kb < n_keyboard)%N -> kb <> kb_DvorakOnQwerty -> (32 <= ch <= 126)%N ->
+  exists ev, Keyboard.map_ascii kb ch = Ok ev /\
+    In (kcode (of_key_event ev)) char_codes /\ kunicode (of_key_event ev) = ch /\
+    mctrl (of_key_event ev) = false /\ mcaps (of_key_event ev) = false /\ mnum (of_key_event ev) = false /\
+    (N.eqb (kcode (of_key_event ev)) kc_Space && mshift (of_key_event ev) = false).
+Proof.
+  intros kb ch Hkb Hne Hch.
+  assert (Sweep : forallb (fun k => forallb (fun c => handle_default_event_ok (N.of_nat k) (N.of_nat c)) (seq 32 95)) [0; 1; 3; 4; 5; 6; 7]%nat = true)
+    by (vm_compute; reflexivity).
+  rewrite forallb_forall in Sweep.
+  assert (Hk : In (N.to_nat kb) [0; 1; 3; 4; 5; 6; 7]%nat).
+  { unfold n_keyboard, kb_DvorakOnQwerty in *. assert (kb = 0 \/ kb = 1 \/ kb = 3 \/ kb = 4 \/ kb = 5 \/ kb = 6 \/ kb = 7)%N as K by lia.
+    destruct K as [->|[->|[->|[->|[->|[->| ->]]]]]]; cbn; tauto. }
+  specialize (Sweep _ Hk). rewrite forallb_forall in Sweep.
+  assert (Hc : In (N.to_nat ch) (seq 32 95)) by (apply in_seq; lia).
+  specialize (Sweep _ Hc). rewrite !N2Nat.id in Sweep. unfold handle_default_event_ok in Sweep.
+  destruct (Keyboard.map_ascii kb ch) as [ev| | |]; try discriminate. exists ev. split; [reflexivity|].
+  repeat (apply andb_true_iff in Sweep as [Sweep ?]).
+  repeat split.
+  - apply existsb_exists in Sweep as (x & Hx & Ex). apply N.eqb_eq in Ex. now subst x.
+  - now apply N.eqb_eq.
+  - now apply negb_true_iff.
+  - now apply negb_true_iff.
+  - now apply negb_true_iff.
+  - now apply negb_true_iff.
+Qed.
+Print Assumptions C18_handle_Default_builds_the_character_event.
